@@ -117,3 +117,7 @@ pub mod gmsol_competition {
 
 #[cfg(not(feature = "no-entrypoint"))]
 gmsol_utils::security_txt!("GMX-Solana Competition Program");
+
+/// Verification hooks: additive re-exports of crate-private items for the /verif harness.
+#[cfg(feature = "verif-hooks")]
+pub mod verif;
